@@ -56,8 +56,9 @@ static void dumpVF(vio::Out & o, const POMDP::ValueFunction & vf) {
 }
 
 template <typename M>
-static void solve(const std::string & alg, const M & model, unsigned h, vio::Out & o) {
-    if (alg == "ip")  { POMDP::IncrementalPruning s(h, 0.0); auto [var, vf] = s(model); o << var; dumpVF(o, vf); }
+static void solve(const std::string & alg, const M & model, unsigned h, vio::Out & o, const M * first = nullptr, unsigned hFirst = 0) {
+    // with [first]: ONE solver object solves *first (horizon hFirst) and then, after setHorizon(h), the model of interest
+    if (alg == "ip")  { POMDP::IncrementalPruning s(first ? hFirst : h, 0.0); if (first) { s(*first); s.setHorizon(h); } auto [var, vf] = s(model); o << var; dumpVF(o, vf); }
     else if (alg == "wit") {
         // transcript of the real LP answers (hook events, AITOOLBOX_VERIF): Q <t> <a> <cand> <0|1 b> <rows>  /  D <t> <a> <entries>
         struct Ev { bool query; unsigned t; size_t a; std::vector<double> cand; bool has; std::vector<double> b; POMDP::VList found; };
@@ -71,7 +72,8 @@ static void solve(const std::string & alg, const M & model, unsigned h, vio::Out
             x.found = *e.found;
             evs.push_back(std::move(x));
         };
-        POMDP::Witness s(h, 0.0);
+        POMDP::Witness s(first ? hFirst : h, 0.0);
+        if (first) { auto keep = POMDP::Witness::verifEventObserver(); POMDP::Witness::verifEventObserver() = nullptr; s(*first); s.setHorizon(h); POMDP::Witness::verifEventObserver() = keep; }
         try { auto [var, vf] = s(model); o << var; dumpVF(o, vf); }
         catch (...) { POMDP::Witness::verifEventObserver() = nullptr; throw; }
         POMDP::Witness::verifEventObserver() = nullptr;
@@ -86,7 +88,7 @@ static void solve(const std::string & alg, const M & model, unsigned h, vio::Out
             }
         }
     }
-    else if (alg == "ls")  { POMDP::LinearSupport s(h, 0.0); auto [var, vf] = s(model); o << var; dumpVF(o, vf); }
+    else if (alg == "ls")  { POMDP::LinearSupport s(first ? hFirst : h, 0.0); if (first) { s(*first); s.setHorizon(h); } auto [var, vf] = s(model); o << var; dumpVF(o, vf); }
     else throw std::logic_error("unknown solver " + alg);
 }
 
@@ -102,6 +104,16 @@ int main(int argc, char ** argv) {
             else if (repr == "mixed1") { POMDP::Model<MDP::SparseModel> x(dense); solve(alg, x, h, o); }
             else if (repr == "mixed2") { POMDP::SparseModel<MDP::Model> x(dense); solve(alg, x, h, o); }
             else { POMDP::SparseModel<MDP::SparseModel> sp(dense); solve(alg, sp, h, o); }
+        } else if (kind == "resolve") {   // resolve <alg> <repr> <hA> <pomdpA> <h> <pomdp> <nb> <beliefs…>: solver object reused
+            const std::string alg = c.next(); const std::string repr = c.next(); unsigned hA = c.nextSize();
+            Tables ta = readPomdp(c);
+            unsigned h = c.nextSize();
+            Tables t = readPomdp(c);
+            POMDP::Model<MDP::Model> denseA(ta.O, ta.Ob, ta.S, ta.A, ta.T, ta.R, ta.g);
+            POMDP::Model<MDP::Model> dense(t.O, t.Ob, t.S, t.A, t.T, t.R, t.g);
+            if (repr == "dense") solve(alg, dense, h, o, &denseA, hA);
+            else if (repr == "generic") { GenericPOMDP ga(denseA); GenericPOMDP g(dense); solve(alg, g, h, o, &ga, hA); }
+            else { POMDP::SparseModel<MDP::SparseModel> spa(denseA); POMDP::SparseModel<MDP::SparseModel> sp(dense); solve(alg, sp, h, o, &spa, hA); }
         } else if (kind == "rtbss") {   // rtbss <dense|sparse> <h> <maxR> <pomdp> <belief>
             const std::string repr = c.next(); unsigned h = c.nextSize(); double maxR = c.nextDouble();
             Tables t = readPomdp(c);
